@@ -7,9 +7,9 @@ CONSTANTS
   Genesis <- GenE
   HasLock <- LockE
   Ops <- OpsE
-  MaxMut = 3
-  MaxSnap = 3
-  MaxDepth = 3
+  MaxMut = 2
+  MaxSnap = 2
+  MaxDepth = 2
   FrameAddr <- FrE
   NewAddrs <- NewE
   XferTo <- XferE
